@@ -1303,6 +1303,9 @@ func preprocessStylesheet(deviceMediaType, baseUrl string, stylesheetRules []pa.
 
 			if len(allDeclarations) > 0 {
 				for _, item := range allDeclarations {
+					// only the (nested) rule with an unsupported pseudo-element is ignored,
+					// not the declarations and nested rules written after it
+					var err error
 					for _, sel := range item.Selector {
 						if _, in := pseudoElements[sel.PseudoElement()]; !in {
 							err = fmt.Errorf("unsupported pseudo-element : %s", sel.PseudoElement())
